@@ -37,7 +37,7 @@ ASSUMPTIONS = [
 ]
 PROBES = ["timeout_raised", "late_reply_dropped", "duplicate_reply", "icmp_error", "fatal_error", "reply_on_last_attempt",
           "via_client_get", "error_then_retry_or_raise", "wall_clock_jumps", "send_blocked", "empty_reply", "slow_socket_setup", "ipv6_peer",
-          "cancelled_by_caller"]
+          "cancelled_by_caller", "reply_over_1024_octets"]
 shrink_lists: List[tuple] = []
 
 
@@ -101,6 +101,8 @@ class ScriptedPeer:
             return out[0][1]
         if keyed(self.plan["latseed"], "empty", k) % 4 == 0:
             return b""          # a zero-length datagram is a reply like any other
+        if keyed(self.plan["latseed"], "empty", k) % 4 == 1:
+            return (b"large-reply-to-attempt-%d:" % k) * 120     # ~3 kB: more than any debug hexdump cap
         return b"reply-to-attempt-%d:" % k + data[:8]
 
     def on_send(self, transport: Any, data: bytes) -> Optional[float]:
@@ -287,6 +289,7 @@ def execute(plan: dict) -> dict:
         "wall_clock_jumps": int(plan.get("clock", {}).get("mode") == "jumping"),
         "send_blocked": int("B" in seq[:len(atts)]), "slow_socket_setup": int(any(setup[:max(1, len(atts))])),
         "ipv6_peer": int(bool(plan.get("ipv6"))), "cancelled_by_caller": int(cancelled),
+        "reply_over_1024_octets": int(answered_at is not None and len(atts[answered_at]["replies"][0][1]) > 1024),
         "empty_reply": int(answered_at is not None and atts[answered_at]["replies"][0][1] == b""),
     }
     counters = dict(w.net.counters)
